@@ -422,6 +422,24 @@ def points_stage(ctx, binary, stats, hist, only=None):
         probs, _ = check_points_linear(X, cmeans, ccovs, Fraction(meta["c"]), n, k, stats, key)
         for key2, what in probs:
             prop_bad.append((key2, what, line, h))
+    # the guard of augmentWithNoise (non-square matrix refused): outside the property's quantifier, counted only
+    if only is None:
+        gl = []
+        for _ in range(ctx.n(8, 60)):
+            lin, k = g.r.randint(1, 3), g.r.randint(1, 3)
+            r_, c_ = g.r.randint(1, 3), g.r.randint(1, 3)
+            toks = ["augns", str(lin), str(k), str(r_), str(c_)] + [hexd(v) for _ in range(k) for v in g.vec(lin)]
+            toks += [hexd(P[a][b]) for P in [g.spd(lin) for _ in range(k)] for b in range(lin) for a in range(lin)]
+            toks += cm_tokens(g.mat(r_, c_))
+            gl.append((" ".join(toks), r_ == c_, lin + r_))
+        gh, _ = vlib.run_harness(binary, [x[0] for x in gl])
+        gd = vlib.run_driver([x[0] for x in gl])
+        for (gline, square, dim), h_, d_ in zip(gl, gh, gd):
+            hist["augmentWithNoise:%s" % ("square" if square else "non-square(refused)")] = hist.get("augmentWithNoise:%s" % ("square" if square else "non-square(refused)"), 0) + 1
+            ht = h_.split()
+            agree = h_.startswith("ok") and d_.startswith("ok") and ht[1] == d_.split()[1] and (ht[1] == "1" or ht[-1] == "same")
+            if not agree:
+                hist["augmentWithNoise:guard-differs-from-model(not alarmed)"] = hist.get("augmentWithNoise:guard-differs-from-model(not alarmed)", 0) + 1
     return len(cases), lines, prop_bad, corr_bad, len(logs)
 
 
@@ -1060,6 +1078,13 @@ def circ_points(meta, o, stats):
         B = [[(E[1 + l][r] - E[1 + n + l][r]) / 2 for l in range(n)] for r in range(n)]
         bscale = maxabs(B)
         eerr = max(max(e) for e in Eerr)
+        if li.quat and li.circ:
+            br = stats.setdefault("_branches", {})
+            for j in range(1, N1):
+                for q in range(li.circ):
+                    z = all(E[j][li.lin + 3 * q + e] == 0.0 for e in range(3))
+                    key = "rotation_vector_to_quaternion:" + ("norm<=1e-4 (identity)" if z else "norm>1e-4")
+                    br[key] = br.get(key, 0) + 1
         e0 = max([abs(v) for v in E[0]] + [0.0])
         t0 = 4 * EPS * mscale + 2 * eerr + 1e-300
         stats["circ_first"] = max(stats.get("circ_first", 0.0), e0 / t0)
@@ -1183,6 +1208,10 @@ def circ_compare(meta, o, comps, spl_out, utl_out, stats):
                 tol_mean += [tq] * 4
                 tang_mean_tol += [2 * tq] * 3
                 v = cmean[r0:r0 + 4]
+                br = stats.setdefault("_branches", {})
+                neg = sum(v[a] * emean[r0 + a] for a in range(4)) < 0
+                key = "quaternion_to_rotation_vector:" + ("w<0 (mean quaternion returned with negative sign)" if neg else "w>=0")
+                br[key] = br.get(key, 0) + 1
                 e_contract = min(max(abs(v[a] - vdom[a]) for a in range(4)), max(abs(v[a] + vdom[a]) for a in range(4)))
                 stats["circ_eig_contract"] = max(stats.get("circ_eig_contract", 0.0), e_contract / tq)
                 if e_contract > tq:
@@ -1366,6 +1395,32 @@ def run(ctx):
         key2, what, line, h = corr_bad[0]
         ctx.violation("correspondence:" + key2, "model and implementation disagree (%d cases), no property predicate failed: %s" % (len(corr_bad), what),
                       rdata(line, h, {"correspondence": "BFL.unscentedTransform / utWeights / sigmaPoints vs sigma_point.cpp"}), no_input=True)
+    branches = stats.pop("_branches", {})
+
+    def hsum(prefix):
+        return sum(v for k_, v in hist.items() if k_.startswith(prefix))
+
+    branches.update({
+        "unscented_weights:j==0 and j>0 (every weights case)": nw,
+        "sigma_point:dim_linear>0": npnt + len(cases) + sum(1 for l in clines if int(l.split()[1]) > 0),
+        "sigma_point:dim_linear==0": sum(1 for l in clines if int(l.split()[1]) == 0),
+        "sigma_point:dim_circular>0,quaternion": hist.get("circ:in=quaternion", 0),
+        "sigma_point:dim_circular>0,euler": hist.get("circ:in=euler", 0),
+        "sigma_point:dim_circular==0": npnt + len(cases) + hist.get("circ:in=none", 0),
+        "sigma_point:dim_noise>0": npnt - hist.get("points:noise-blocks=0", 0) + len(cases) - hist.get("ut:noise-rows=0", 0) + hsum("circ:noise-rows=") - hist.get("circ:noise-rows=0", 0),
+        "sigma_point:dim_noise==0": hist.get("points:noise-blocks=0", 0) + hist.get("ut:noise-rows=0", 0) + hist.get("circ:noise-rows=0", 0),
+        "unscented_transform:!valid_fun_data (early return)": hist.get("ut:valid=0", 0) + hist.get("circ:valid=0", 0),
+        "unscented_transform:output.dim_circular>0": hsum("circ:out-circular=") - hist.get("circ:out-circular=0", 0),
+        "unscented_transform:output.dim_circular==0": len(cases) + hist.get("circ:out-circular=0", 0),
+        "overload:StateModel": hist.get("ut:mode=sm", 0), "overload:AdditiveStateModel": hist.get("ut:mode=asm", 0),
+        "overload:MeasurementModel": hist.get("ut:mode=mm", 0), "overload:AdditiveMeasurementModel": hist.get("ut:mode=amm", 0),
+        "overload:AdditiveMeasurementModel:!valid (return before post-processing)": sum(1 for (l, m_) in cases if m_["mode"] == "amm" and not m_["valid"]),
+        "augmentWithNoise:non-square (return false)": hist.get("augmentWithNoise:non-square(refused)", 0),
+        "augmentWithNoise:components>1 (blocks moved)": sum(1 for l in plines if int(l.split()[4]) > 1 and int(l.split()[5]) > 0),
+        "augmentWithNoise:second augmentation": hist.get("points:noise-blocks=2", 0),
+        "dof_size:quaternion": hist.get("weights:dof:quat", 0), "dof_size:else": hist.get("weights:dof:euler", 0),
+        "directional_mean:cols==1": 0,
+    })
     all_lines = wlines + plines + tlines + clines
     nontrivial = set()
     for (line, meta) in cases:
@@ -1382,7 +1437,9 @@ def run(ctx):
                 "components 1..4, non-symmetric / rank-deficient / zero A, failing evaluations); exact instances: model only, dyadic factor; "
                 "non-trivial = more than one input dimension or more than one component (weights cases are not counted); distinct = distinct input lines",
         "samples": [l[:400] for l in (wlines[:1] + plines[:1] + tlines[:1] + tlines[-1:] + clines[:1])],
-        "branch_histogram": hist, "numeric_max_error_over_tolerance": stats, "notes_not_alarmed": notes,
+        "branch_histogram": hist, "code_branches_hit": branches,
+        "code_branches_note": "directional_mean's single-column branch cannot be reached from the transform (2n+1 >= 3 columns); it is a branch of the model (dirMean) only",
+        "numeric_max_error_over_tolerance": stats, "notes_not_alarmed": notes,
         "traces_validated_against_impl": nw + npnt + len(cases) + ncirc,
         "exact_theorem_instances_on_Q": nex,
         "model_vs_impl_disagreements": len(corr_bad), "property_failures_on_impl": len(prop_bad),
